@@ -39,7 +39,7 @@ func u16list(tag string, max int) []uint16 {
 	return l
 }
 
-//verif:harness props=C10,C07 paths=200000 reach=resumed,full
+//verif:harness props=C10,C07,C01 paths=200000 reach=resumed,full
 func VerifHarness_C10_server_resumption_decision() {
 	cache := &verifOneCache{}
 	policy := ClientAuthType(verifSplitInt("clientAuth", 0, 5))
@@ -90,6 +90,8 @@ func VerifHarness_C10_server_resumption_decision() {
 	known := s.cipherSuite == ECC_SM4_GCM_SM3 || s.cipherSuite == ECC_SM4_CBC_SM3 || s.cipherSuite == ECDHE_SM4_GCM_SM3 || s.cipherSuite == ECDHE_SM4_CBC_SM3
 	verifAssert("C10.decision.suiteStillOfferedByClient", offered)
 	verifAssert("C10.decision.suiteStillEnabledByServer", enabled && known)
+	// C01: an abbreviated handshake, too, runs under a suite that BOTH sides enable now
+	verifAssert("C01.resumed.suiteEnabledByBothSides", offered && enabled && known)
 	verifAssert("C10.decision.suiteInstalled", hs.suite != nil && hs.suite.id == s.cipherSuite)
 	required := policy == RequireAnyClientCert || policy == RequireAndVerifyClientCert || policy == RequireAndVerifyAnyKeyUsageClientCert
 	verifAssert("C07.decision.requiredCertificateInSession", !required || hasCerts)
